@@ -422,6 +422,19 @@ m("ambient-label-from-address", ["C16"], ["AMBIENT|IRCodeGen::label|address-as-i
   "    fn label(&mut self) -> Label {\n        let i = self.counter;\n        self.counter += 1;\n        Label(i)", "    fn label(&mut self) -> Label {\n        self.counter += 1;\n        Label((&self.counter as *const usize as usize) % 100000 + self.counter)")
 m("ambient-pointer-in-message", ["C16"], ["AMBIENT|"], TC,
   "                        \"`break` only works in loops\"\n", "                        \"`break` only works in loops ({:p})\",\n                        self\n")
+MATH = "std/math.sy"
+m("order-model-max-returns-smaller", ["C18"], ["ORDER-MODEL|max|agrees-with-the-model-on-every-order-cell", "ORDER-MODEL|clamp"], MATH,
+  "    if a > b do a\n    else do b\n    end", "    if a < b do a\n    else do b\n    end")
+m("order-model-clamp-bounds-swapped", ["C18"], ["ORDER-MODEL|clamp|agrees-with-the-model-on-every-order-cell"], MATH,
+  "    min(hi, max(x, lo))", "    min(lo, max(x, hi))")
+m("order-model-sign-of-zero", ["C18"], ["ORDER-MODEL|sign|agrees-with-the-model-on-every-order-cell"], PRE,
+  "function sign(x)\n    if x > 0 then", "function sign(x)\n    if x >= 0 then")
+m("twin-order-model-abs-by-subtraction", ["C18"], "silent", MATH,
+  "    if n < 0 do\n        -n", "    if n < 0 do\n        0 - n")
+m("twin-order-model-min-on-ties", ["C18"], "silent", MATH,
+  "    if a < b do\n        a\n    else do\n        b\n    end", "    if a <= b do\n        a\n    else do\n        b\n    end")
+m("twin-order-model-abs-of-zero", ["C18"], "silent", MATH,
+  "    if n < 0 do\n        -n", "    if n <= 0 do\n        -n")
 m("bracket-index-no-newline-mode", ["C14"], ["BRACKET-MODE|assignable_index|LeftBracket", "NEWLINE-MODE"], PPA,
   "    let (mut ctx, skip_newlines) = ctx.push_skip_newlines(true);\n\n    let expr =", "    let (mut ctx, skip_newlines) = ctx.push_skip_newlines(ctx.skip_newlines);\n\n    let expr =")
 m("bracket-list-type-no-newline-mode", ["C14"], ["BRACKET-MODE|parse_type|LeftBracket", "NEWLINE-MODE"], PPA,
